@@ -45,6 +45,14 @@ func (c *ctx) ask(lines []string) []string {
 
 var props = map[string]func(*ctx){}
 
+// repoDir is the scrapligo tree the harness was built against (bin/check exports VERIF_REPO).
+func repoDir() string {
+	if d := os.Getenv("VERIF_REPO"); d != "" {
+		return d
+	}
+	return "/repo"
+}
+
 func main() {
 	if len(os.Args) < 2 {
 		fmt.Fprintln(os.Stderr, "usage: harness <prop> [flags]")
